@@ -47,6 +47,7 @@ def cstr(b):
 
 
 def declared_degree(b):
+    b = re.sub(rb"![^\n]*", b"", b)          # comments are dropped by the line reader
     m = re.search(rb"(?i)degree\s*=\s*(-?\d+)", b)
     if m:
         try: return int(m.group(1)) if len(m.group(1)) < 40 else 10 ** 40
